@@ -245,7 +245,9 @@ class OpenDocument:
         still bears that name (a style can be renamed after it was added)
         '''
         s = self._styles_dict.get(name)
-        if s is not None and (s.ownerDocument is not self or s.getAttrNS(STYLENS, u'name') != name):
+        if s is not None and (s.ownerDocument is not self or s.getAttrNS(STYLENS, u'name') != name
+                              or s.parentNode is None
+                              or s.parentNode.qname not in ((OFFICENS,u'styles'), (OFFICENS,u'automatic-styles'))):
             del self._styles_dict[name]
             s = None
         return s
